@@ -82,7 +82,8 @@ func init() {
 		Race:        true,
 		CaseTimeout: 420 * time.Second,
 		Floors: []string{"ctxn_cases_one_shared_context", "ctxn_cases_context_per_goroutine", "floor_acked_ops_ge_1000", "floor_conflicts_ge_20", "floor_overlap_matrix_complete",
-			"merges_completed", "merge_vs_local_write_overlaps", "ctxn_commits_ok", "ctxn_commits_conflicted", "partitions_linearizable"},
+			"merges_completed", "merge_vs_local_write_overlaps", "ctxn_commits_ok", "ctxn_commits_conflicted", "partitions_linearizable",
+			"bidir_runs", "bidir_docs_with_remote_increments_merged"},
 		PostProcess: c16Post,
 		Assumptions: []string{
 			"absence of a race report is not absence of races: only the interleavings that the repeated randomized runs (yield injection at storage calls, GOMAXPROCS 2/8/16) produced are covered",
@@ -186,6 +187,19 @@ func c16Cases(seed uint64, tier string) []core.Case {
 			mk(c16Params{Workload: "replicator", G: 3 + rng.IntN(4), Ops: 20 + rng.IntN(20), Procs: procs[(i/2)%3], Yield: []float64{0, 0.02}[rng.IntN(2)]})
 		}
 	}
+	// two peers replicating to each other under local writes on both (own generator, so that the
+	// cases above do not depend on how many of these there are)
+	brng := rand.New(rand.NewPCG(seed, 161616))
+	bmk := func(p c16Params) { cs = append(cs, core.MkCase(p.Workload, brng.Uint64(), p)) }
+	bmk(c16Params{Workload: "bidir", G: 3, Ops: 30, Procs: 8, Yield: 0.02})
+	bmk(c16Params{Workload: "bidir", G: 4, Ops: 25, Procs: 2, Yield: 0})
+	nb := 2
+	if tier == "thorough" {
+		nb = 14
+	}
+	for i := 0; i < nb; i++ {
+		bmk(c16Params{Workload: "bidir", G: 2 + brng.IntN(5), Ops: 20 + brng.IntN(30), Procs: procs[i%3], Yield: []float64{0, 0.02, 0.08}[brng.IntN(3)]})
+	}
 	return cs
 }
 
@@ -202,6 +216,8 @@ func c16Run(ctx context.Context, c core.Case, r *core.Rec) {
 		c16RunDDLHandle(ctx, c, p, r)
 	case "replicator":
 		c16RunReplicator(ctx, c, p, r)
+	case "bidir":
+		c16RunBidir(ctx, c, p, r)
 	case "ctxn":
 		c16RunCtxn(ctx, c, p, r)
 	default:
